@@ -15,6 +15,11 @@ def program(rng, lang, nlines=None, crlf=False, blanks=False):
     finally:
         langgen.MARK[0] = False
     lines = t.split('\n')[:-1]
+    # comments are not limited to ASCII (the positions the edits use are then no longer the character counts)
+    if rng.random() < 0.25:
+        k = rng.randrange(len(lines))
+        if 'REM' in lines[k] and '"' not in lines[k]:
+            lines[k] = lines[k] + rng.choice([' \u00e9', ' \u00fc\u00e9', '\u20ac x'])
     if blanks:
         out = []
         for l in lines:
